@@ -1,7 +1,7 @@
 """Known-finding predicates for C03 (block-layout transparency)."""
 from sfmon.findings import predicate
 
-_WIDENING_OPS = {'fillna', 'fillna_leading', 'fillna_trailing', 'fillna_leading_axis1', 'fillna_trailing_axis1', 'fillna_forward', 'fillna_backward', 'astype_all',
+_WIDENING_OPS = {'fillna', 'fillna_leading', 'fillna_trailing', 'fillna_leading_axis1', 'fillna_trailing_axis1', 'fillna_forward', 'fillna_backward', 'fillna_forward_limited', 'fillna_backward_limited', 'fillna_frame', 'astype_all',
                  'astype_cols', 'via_str', 'binop_scalar', 'binop_array', 'assign_bloc', 'assign_scalar', 'assign_column_array'}
 
 
@@ -42,7 +42,7 @@ def c03_conversion_error_class_follows_block_order(w):
     k = w['klass']
     if w['what'] != 'layout_dependent_outcome' or k.get('differs') != 'exc/exc':
         return False
-    if k.get('operation') in ('astype_all', 'astype_cols'):
+    if k.get('operation') in ('astype_all', 'astype_cols', 'astype_cols_present_dtype'):
         return True
     # element-wise operators over object cells: every layout raises, which failing cell NumPy meets first follows the block shape
     return k.get('operation') in ('binop_scalar', 'binop_array', 'unary') and 'O' in (k.get('dtype_kinds') or [])
